@@ -61,11 +61,11 @@ def _near_end(chains, descs):
     return False
 
 
-def make_foreign(sid, specs, chains, allsym=8):
+def make_foreign(sid, specs, chains, allsym=8, slots=None, deleted=()):
     def body(ctx):
         install_m7()
         _fl, descs = F.build(ctx, specs, allsym_limit=allsym, full_addr_index=0)
-        buf = OD.write_image(descs, chains)
+        buf = OD.write_image(descs, chains, slots=slots, deleted=deleted)
         got, rerr = read_back(buf)
         info = {"files": [s.text() for s in specs], "chains": chains, "read_error": rerr}
         if got is not None:
@@ -111,6 +111,10 @@ def obligations(tier, seed):
         obs.append(make_foreign("triple:%d-%d-%d" % (a, b, c), [S("TRIPLE", 4700, "ml")], [[a, b, c]]))
     obs.append(make_foreign("two-files", [S("ONE", 2400, "ml"), S("TWO", 100, "ascii", ext="TXT")], [[40, 3], [41]]))
     obs.append(make_foreign("single-gran", [S("ONE", 100, "ml")], [[27]]))
+    obs.append(make_foreign("holes", [S("FIRST", 30, "ml"), S("THIRD", 40, "ml"), S("FOURTH", 10, "basic", ext="BAS")], [[5], [9], [40]],
+                            slots=[0, 2, 7], deleted=[1, 3]))
+    obs.append(make_foreign("hole-first", [S("ONLY", 30, "ml")], [[12]], slots=[4], deleted=[0, 1]))
+    obs.append(make_foreign("last-slot", [S("LAST", 30, "ml")], [[66]], slots=[71]))
     obs.append(make_foreign("interleaved", [S("ONE", 2400, "ml"), S("TWO", 2400, "basic", ext="BAS")], [[10, 12], [11, 13]]))
     return obs
 
